@@ -341,7 +341,12 @@ func (blockchain *Blockchain) BeginBlock(req abciTypes.RequestBeginBlock) abciTy
 
 		// skip already offline candidates to prevent double punishing
 		candidate := blockchain.stateDeliver.Candidates.GetCandidateByTendermintAddress(address)
-		if candidate == nil || candidate.Status == candidates.CandidateStatusOffline || blockchain.stateDeliver.Validators.GetByTmAddress(address) == nil {
+		validator := blockchain.stateDeliver.Validators.GetByTmAddress(address)
+		if candidate == nil || candidate.Status == candidates.CandidateStatusOffline || validator == nil {
+			continue
+		}
+		// a validator punished by an earlier piece of evidence in this block is already dropped
+		if validator.IsToDrop() {
 			continue
 		}
 
